@@ -1,0 +1,45 @@
+//go:build verif
+
+// Package verifhook provides scheduling hooks for the model-checking harness.
+// With the "verif" build tag the hooks forward to function variables that the
+// harness sets; unset variables make the hooks no-ops.
+package verifhook
+
+var (
+	PointFn func(label string)
+	SpawnFn func(name string) any
+	EnterFn func(tok any)
+	ExitFn  func(tok any)
+	AwaitFn func(pred func() bool, why string)
+)
+
+func Point(label string) {
+	if PointFn != nil {
+		PointFn(label)
+	}
+}
+
+func Spawn(name string) any {
+	if SpawnFn != nil {
+		return SpawnFn(name)
+	}
+	return nil
+}
+
+func Enter(tok any) {
+	if EnterFn != nil {
+		EnterFn(tok)
+	}
+}
+
+func Exit(tok any) {
+	if ExitFn != nil {
+		ExitFn(tok)
+	}
+}
+
+func Await(pred func() bool, why string) {
+	if AwaitFn != nil {
+		AwaitFn(pred, why)
+	}
+}
